@@ -252,3 +252,18 @@ Proof.
   - intros b Hb IH. replace (2 * b + 1 + 1) with (2 * (b + 1)) by lia.
     rewrite count_ones_double, count_ones_succ_double by lia. lia.
 Qed.
+
+Lemma land_pow2_testbit b n : 0 <= b -> Z.land (2 ^ b) n = if Z.testbit n b then 2 ^ b else 0.
+Proof.
+  intros Hb. apply Z.bits_inj'. intros j Hj. rewrite Z.land_spec, Z.pow2_bits_eqb by lia.
+  destruct (Z.testbit n b) eqn:T.
+  - rewrite Z.pow2_bits_eqb by lia. destruct (Z.eqb_spec b j) as [<-|]; [rewrite T; reflexivity|reflexivity].
+  - rewrite Z.bits_0. destruct (Z.eqb_spec b j) as [<-|]; [rewrite T; reflexivity|reflexivity].
+Qed.
+
+Lemma mod_pow2_succ b n : 0 <= b ->
+  n mod 2 ^ (b + 1) = n mod 2 ^ b + (if Z.testbit n b then 2 ^ b else 0).
+Proof.
+  intros Hb. pose proof (pow2_pos b Hb). rewrite pow2_succ by lia. rewrite (Z.mul_comm 2).
+  rewrite Z.rem_mul_r by lia. rewrite <- Z.testbit_spec' by lia. destruct (Z.testbit n b); cbn [Z.b2z]; lia.
+Qed.
